@@ -316,7 +316,7 @@ func runProperty(w *World, lib *SpecLib, p *Prover, id, tier string) *propRun {
 			continue
 		}
 		for _, ob := range r.Obs {
-			if sweep && ob.Kind != "nopanic" && ob.Kind != "term" && ob.Kind != "prop" {
+			if sweep && ob.Kind != "nopanic" && ob.Kind != "term" && ob.Kind != "prop" && !contains(ob.Tags, "C08") {
 				continue
 			}
 			obs = append(obs, ob)
@@ -371,6 +371,26 @@ func runProperty(w *World, lib *SpecLib, p *Prover, id, tier string) *propRun {
 		}
 	}
 	run.ownObs = ownPass(w, id)
+	if id == "C09" {
+		// a map range that is accepted as order-independent "because of the function's functional postcondition" is only
+		// as good as that postcondition's proof in THIS run: if any obligation of the function is undischarged, the range
+		// is order-dependent as far as this check knows (this also covers functions that are new to the cone)
+		failing := map[string]string{}
+		for _, a := range run.aggs {
+			if !a.ok() && len(a.Results) > 0 {
+				failing[a.Results[0].Ob.Func] = a.Key
+			}
+		}
+		for _, o := range run.ownObs {
+			if o.OK && strings.Contains(o.Key, ".effects[map range #") && strings.HasPrefix(o.Why, "covered by the function") {
+				fn := o.Key[:strings.Index(o.Key, ".effects[")]
+				if k, bad := failing[fn]; bad {
+					o.OK = false
+					o.Why = "the range is only order-independent if the function's functional postcondition holds for every iteration order, but " + k + " is not discharged"
+				}
+			}
+		}
+	}
 	return run
 }
 
